@@ -80,39 +80,49 @@ def articulation_points[S](
     time = [0]
     iterations = 0
 
-    def dfs(v: S) -> None:
-        nonlocal iterations
-        iterations += 1
-
-        children = 0
-        discovery[v] = time[0]
-        low[v] = time[0]
+    # Iterative DFS (explicit stack): recursion would overflow on long paths
+    for start in node_list:
+        if start in discovery:
+            continue
+        parent[start] = root
+        discovery[start] = low[start] = time[0]
         time[0] += 1
+        iterations += 1
+        root_children = 0
+        stack = [(start, iter(adj[start]))]
 
-        for w in adj[v]:
-            if w not in discovery:
-                children += 1
-                parent[w] = v
-                dfs(w)
-                low[v] = min(low[v], low[w])
+        while stack:
+            v, it = stack[-1]
+            descended = False
+            for w in it:
+                if w not in discovery:
+                    parent[w] = v
+                    discovery[w] = low[w] = time[0]
+                    time[0] += 1
+                    iterations += 1
+                    stack.append((w, iter(adj[w])))
+                    descended = True
+                    break
+                elif w != parent[v]:
+                    low[v] = min(low[v], discovery[w])
+            if descended:
+                continue
 
-                # v is an articulation point if:
-                # 1. v is root and has 2+ children, OR
-                # 2. v is not root and low[w] >= discovery[v]
-                if parent[v] is root:
-                    if children >= 2:
-                        ap.add(v)
-                elif low[w] >= discovery[v]:
+            stack.pop()
+            if not stack:
+                break
+            w, v = v, stack[-1][0]
+            low[v] = min(low[v], low[w])
+
+            # v is an articulation point if:
+            # 1. v is root and has 2+ children, OR
+            # 2. v is not root and low[w] >= discovery[v]
+            if parent[v] is root:
+                root_children += 1
+                if root_children >= 2:
                     ap.add(v)
-
-            elif w != parent[v]:
-                low[v] = min(low[v], discovery[w])
-
-    # Handle disconnected components
-    for v in node_list:
-        if v not in discovery:
-            parent[v] = root
-            dfs(v)
+            elif low[w] >= discovery[v]:
+                ap.add(v)
 
     return Result(ap, len(ap), iterations, n)
 
@@ -148,33 +158,43 @@ def bridges[S](
     time = [0]
     iterations = 0
 
-    def dfs(v: S) -> None:
-        nonlocal iterations
-        iterations += 1
-
-        discovery[v] = time[0]
-        low[v] = time[0]
+    # Iterative DFS (explicit stack): recursion would overflow on long paths
+    for start in node_list:
+        if start in discovery:
+            continue
+        parent[start] = None
+        discovery[start] = low[start] = time[0]
         time[0] += 1
+        iterations += 1
+        stack = [(start, iter(adj[start]))]
 
-        for w in adj[v]:
-            if w not in discovery:
-                parent[w] = v
-                dfs(w)
-                low[v] = min(low[v], low[w])
+        while stack:
+            v, it = stack[-1]
+            descended = False
+            for w in it:
+                if w not in discovery:
+                    parent[w] = v
+                    discovery[w] = low[w] = time[0]
+                    time[0] += 1
+                    iterations += 1
+                    stack.append((w, iter(adj[w])))
+                    descended = True
+                    break
+                elif w != parent[v]:
+                    low[v] = min(low[v], discovery[w])
+            if descended:
+                continue
 
-                # Edge (v, w) is a bridge if low[w] > discovery[v]
-                if low[w] > discovery[v]:
-                    # Canonical ordering for consistent results
-                    edge = (v, w) if v < w else (w, v)  # type: ignore[operator]
-                    bridge_list.append(edge)
+            stack.pop()
+            if not stack:
+                break
+            w, v = v, stack[-1][0]
+            low[v] = min(low[v], low[w])
 
-            elif w != parent[v]:
-                low[v] = min(low[v], discovery[w])
-
-    # Handle disconnected components
-    for v in node_list:
-        if v not in discovery:
-            parent[v] = None
-            dfs(v)
+            # Edge (v, w) is a bridge if low[w] > discovery[v]
+            if low[w] > discovery[v]:
+                # Canonical ordering for consistent results
+                edge = (v, w) if v < w else (w, v)  # type: ignore[operator]
+                bridge_list.append(edge)
 
     return Result(bridge_list, len(bridge_list), iterations, n)
